@@ -14,14 +14,21 @@ def wrap_and_run(lib, front, options=None, asan=False, keep=None):
     """-> dict(stage, detail, stream, expected)"""
     work = tempfile.mkdtemp(prefix="vfx_", dir=core.scratch_root())
     try:
+        if front == "python":
+            options = dict({"wrap_python": True, "wrap_c": False, "wrap_fortran": False, "PY_array_arg": "list"}, **(options or {}))
         ytext = xlib.to_yaml(lib, options)
         r = shroud_run.run_yaml(ytext, [], workdir=work, name="xlib")
         if r.status != "ok":
             return dict(stage="shroud", detail=r.describe(), stream=[], expected=[])
         outd = os.path.join(work, "out")
         gen = [f for f in os.listdir(outd)]
-        res = drivers.build_and_run(outd, lib, gen, front, asan=asan)
-        res["expected"] = xlib.expected_stream(lib, "fortran" if front == "fortran" else "c")
+        if front == "python":
+            from . import pyfront
+            res = pyfront.build_and_run(outd, lib, gen, asan=asan)
+            res["expected"] = pyfront.expected_stream(lib)
+        else:
+            res = drivers.build_and_run(outd, lib, gen, front, asan=asan)
+            res["expected"] = xlib.expected_stream(lib, "fortran" if front == "fortran" else "c")
         if keep:
             shutil.copytree(outd, keep, dirs_exist_ok=True)
         return res
@@ -54,7 +61,7 @@ def judge(lib, res, front):
                 "link": "link fails (documented name not defined?)"}[res["stage"]]
         problems.append((res["stage"], "%s: %s" % (what, res["detail"][-900:]), None))
         return problems
-    plan = xlib.plan(lib)
+    plan = the_plan(lib, front)
     exp = split_calls(res["expected"])
     got = split_calls(res["stream"])
     for site, op in enumerate(plan):
@@ -71,6 +78,10 @@ def judge(lib, res, front):
             exp_l = e[i] if i < len(e) else "(nothing)"
             got_l = g[i] if i < len(g) else "(nothing)"
             what = culprit(f, exp_l, got_l)
+            if op.get("bad"):
+                what = "bad-call:%s" % op["bad"]
+            elif "split" in op and exp_l.startswith("O") and got_l.startswith("O"):
+                pass
             problems.append(("%s:%s" % (what, "library-received" if exp_l[:1] in "AE" else "caller-got"),
                              "%s call %s of %s: expected stream line %r, observed %r" % (op["kind"], k, describe(f), exp_l, got_l), site))
     if not problems and res["stage"] == "ok":
@@ -88,6 +99,13 @@ def describe(f):
         return ("%s::" % f["cls"] if f.get("cls") else "") + xlib.decl_text(f)
     except Exception:
         return f.get("name", "?")
+
+
+def the_plan(lib, front):
+    if front == "python":
+        from . import pyfront
+        return pyfront.py_plan(lib)
+    return xlib.plan(lib)
 
 
 def rows_of(f):
@@ -114,7 +132,7 @@ def culprit(f, exp_l, got_l):
 def minimise(lib, site, front, options, key):
     """Structural reduction: keep only the failing function and the failing call, then drop
     parameters that are not needed to reproduce the same key."""
-    plan = xlib.plan(lib)
+    plan = the_plan(lib, front)
     if plan[site]["kind"] != "call" or plan[site].get("cls"):
         # class life cycles are reduced by dropping the plain functions only
         small = dict(lib, funcs=[])
@@ -157,7 +175,7 @@ def _job(job):
     idx, lib, front, options, asan = job
     res = wrap_and_run(lib, front, options, asan=asan)
     probs = judge(lib, res, front)
-    plan = xlib.plan(lib)
+    plan = the_plan(lib, front)
     out = dict(idx=idx, ncalls=len(plan), problems=[], labels=[], nontrivial=[], sample=None)
     for site, op in enumerate(plan):
         if op["kind"] == "del":
@@ -167,7 +185,8 @@ def _job(job):
         out["labels"].append("op:" + op["kind"])
         if f["params"] or f["ret"] or op["kind"] != "call":
             out["nontrivial"].append((rows_of(f), tuple(sorted((p["row"], p["T"]) for p in f["params"])),
-                                      f["ret"]["row"] if f["ret"] else "void", repr(sorted(options.items())) if options else ""))
+                                      f["ret"]["row"] if f["ret"] else "void", repr(sorted(options.items())) if options else "",
+                                      op.get("split"), op.get("bad"), op.get("pos")))
         for p in f["params"]:
             out["labels"].append("row:" + p["row"])
         out["labels"].append("ret:" + (f["ret"]["row"] if f["ret"] else "void"))
@@ -187,11 +206,11 @@ def _job(job):
     return out
 
 
-def run_engine(ctx, front, configs, nlibs, lang_choices, asan=False):
+def run_engine(ctx, front, configs, nlibs, lang_choices, asan=False, **libkw):
     jobs = []
     i = 0
     for lang in lang_choices:
-        libs = smallgen.sample(xlib.library(lang=lang, for_fortran=(front == "fortran")), ctx.seed + len(jobs), nlibs)
+        libs = smallgen.sample(xlib.library(lang=lang, for_fortran=(front == "fortran"), **libkw), ctx.seed + len(jobs), nlibs)
         for lib in libs:
             for options in configs:
                 jobs.append((i, lib, front, options, asan))
